@@ -73,6 +73,7 @@ def _dims_loop(fn):
 
 
 def rule_a(repo, res, m):
+    rule_bytes_per_sample(repo, res)
     wp, rp = m.funcs["write_picture"], m.funcs["read_picture"]
     where = m.rel
     wl, wc, wn, wsrc = _dims_loop(wp)
@@ -138,6 +139,37 @@ def rule_a(repo, res, m):
     z = pfind("X_v = np.zeros((%s, %s), dtype=object)" % (r_h, r_w), rl)[0] is not None
     stv = pfind("E_p[%s] = X_v.tolist()" % rc, rl)[0] is not None
     res.check(z and stv, "C23.a", "reader:exact-integers", where, "the reader must accumulate into a dtype=object zero array of (height, width) and store its list form under picture[component]", by="np.zeros((height, width), dtype=object) ... picture[component] = values.tolist()")
+
+
+def rule_bytes_per_sample(repo, res):
+    """compute_dimensions_and_depths: bytes_per_sample = smallest power of two >= ceil(depth_bits / 8)"""
+    from ..core import pmatch
+
+    dm = repo.mod("dimensions_and_depths")
+    fn = dm.funcs.get("compute_dimensions_and_depths")
+    if fn is None:
+        raise AnalysisError("anchor vanished: dimensions_and_depths.compute_dimensions_and_depths")
+    where = "%s:compute_dimensions_and_depths" % dm.rel
+    # the value passed as the 4th field of DimensionsAndDepths(...)
+    ok = False
+    found = "constructor call not found"
+    for c in ast.walk(fn):
+        if isinstance(c, ast.Call) and dotted(c.func) == "DimensionsAndDepths" and len(c.args) == 4 and isinstance(c.args[3], ast.Name) and isinstance(c.args[2], ast.Name):
+            b, d = c.args[3].id, c.args[2].id
+            blk = None
+            for owner in ast.walk(fn):
+                body = getattr(owner, "body", None)
+                if isinstance(body, list) and any(isinstance(x, ast.Assign) and dotted(x.targets[0]) == b for x in body):
+                    blk = body
+            defs = [x for x in (blk or []) if isinstance(x, ast.Assign) and dotted(x.targets[0]) == b]
+            found = "; ".join(short(x, 60) for x in defs)
+            if len(defs) == 2:
+                step1 = norm(defs[0].value) in (norm(ast.parse("(%s + 7) // 8" % d).body[0].value), norm(ast.parse("-(-%s // 8)" % d).body[0].value))
+                step2 = norm(defs[1].value) in (norm(ast.parse("1 << intlog2(%s)" % b).body[0].value), norm(ast.parse("2 ** intlog2(%s)" % b).body[0].value))
+                ok = step1 and step2
+            elif len(defs) == 1:
+                ok = norm(defs[0].value) in (norm(ast.parse("1 << intlog2((%s + 7) // 8)" % d).body[0].value), norm(ast.parse("2 ** intlog2((%s + 7) // 8)" % d).body[0].value))
+    res.check(ok, "C23.a", "geometry:bytes-per-sample", where, "bytes_per_sample must be ceil(depth_bits / 8) rounded up to a power of two -- `(depth_bits + 7) // 8` then `1 << intlog2(...)` (found `%s`): any other rounding gives 0 bytes for shallow components or too few for deep ones, and both the writer and the reader take the number of bytes per sample from here" % found, by="1 << intlog2((depth_bits + 7) // 8)")
 
 
 def rule_b(repo, res, m):
